@@ -240,7 +240,17 @@ def solve(a,b):
         "{} != {}".format(a.dtype, b.dtype)
         
     a_lu,i,p = ludcmp( a.copy() )
-    return _lubksb( a_lu,i,b.copy() )
+    x = b.copy()
+    if x.ndim == 2:
+        # `_lubksb` exchanges the elements of a sequence; the rows of a
+        # 2D array are views, so each column is solved as a list (cf `invab`)
+        for j in xrange(x.shape[1]):
+            col = _lubksb( a_lu,i,[ x[k,j] for k in xrange(x.shape[0]) ] )
+            for k in xrange(x.shape[0]):
+                x[k,j] = col[k]
+        return x
+
+    return _lubksb( a_lu,i,x )
 
 
     
